@@ -903,3 +903,147 @@ def features(enc, ordering=None, limit=40):
 
     walk(e)
     return out
+
+
+# --------------------------------------------------------------------------------------------- structured: operators
+
+EXPR_CLASSES = ("P", "PP", "prod", "sum", "frac", "one", "zero", "Q")
+
+
+def class_instance(rng: random.Random, cls: str, pool, n_names: int):
+    """a raw expression whose Python class is `cls`, built from the common factor pool"""
+    leaves = [x for x in pool if isinstance(x, list) and x[0] == "P"] or [mk_leaf([0])]
+    pleaves = [x for x in pool if isinstance(x, list) and x[0] == "PP"] or [mk_leaf([0], pop=POPS[0])]
+    if cls == "P":
+        return rng.choice(leaves)
+    if cls == "PP":
+        return rng.choice(pleaves)
+    if cls == "one":
+        return "one"
+    if cls == "zero":
+        return "zero"
+    if cls == "Q":
+        ns = list(range(n_names))
+        rng.shuffle(ns)
+        k = rng.randint(1, n_names - 1)
+        return ["Q", [plain(n) for n in sorted(ns[:k])], [plain(n) for n in sorted(ns[k:])]]
+    if cls == "prod":
+        fs = [rng.choice(pool) for _ in range(rng.choice([2, 2, 3]))]
+        if rng.random() < 0.25:
+            fs.append(rng.choice(["one", ["frac", rng.choice(pool), rng.choice(pool)]]))
+        rng.shuffle(fs)
+        return ["prod"] + _nest(rng, fs)
+    if cls == "sum":
+        body = rng.choice([rng.choice(pool), mk_prod([rng.choice(pool), rng.choice(pool)]),
+                           ["frac", rng.choice(pool), rng.choice(pool)]])
+        r = sorted(rng.sample(range(n_names), rng.choice([1, 1, 2])))
+        return ["sum", [plain(n) for n in r], body]
+    if cls == "frac":
+        k = rng.random()
+        side = lambda: mk_prod([rng.choice(pool) for _ in range(rng.choice([1, 1, 2]))])  # noqa: E731
+        if k < 0.15:
+            return ["frac", "one", side()]
+        if k < 0.25:
+            return ["frac", side(), "one"]
+        if k < 0.35:
+            return ["frac", side(), ["frac", side(), side()]]
+        return ["frac", side(), side()]
+    raise ValueError(cls)
+
+
+def struct_simplify_fraction(rng: random.Random, n_names=4):
+    """(raw Fraction, label) for Fraction.simplify(): numerator and denominator factor lists with designed multiplicities
+    of common factors (more often in the numerator, more often in the denominator, equally often, disjoint), single
+    factors vs products on either side, One numerators over fractions"""
+    flavour = rng.choice(["mixed", "mixed", "samefirst"])
+    pool = factor_catalogue(rng, n_names, flavour)[: rng.choice([2, 3, 4])]
+    k = rng.random()
+    if k < 0.1:
+        inner, _ = struct_simplify_fraction(rng, n_names)
+        return ["frac", "one", inner], "simplify:one_over_frac"
+    if k < 0.15:
+        return ["frac", "zero", mk_prod([rng.choice(pool)])], "simplify:zero_num"
+    pats = [(2, 1), (1, 2), (1, 1), (2, 2), (3, 1), (1, 3), (3, 2), (1, 0), (0, 1), (2, 0), (0, 2), (0, 0)]
+    num, den = [], []
+    for x in pool:
+        a, b = rng.choice(pats)
+        num += [x] * a
+        den += [x] * b
+    if not num and not den:
+        num, den = [pool[0]], [pool[0]]
+    rng.shuffle(num)
+    rng.shuffle(den)
+    d = mk_prod(den)
+    return ["frac", mk_prod(num), d], "simplify:multiset"
+
+
+def simplify_profile(enc):
+    """multiplicity patterns of common factors in a raw fraction num/den (factor lists of top-level products):
+    subset of {num>den>0, den>num>0, eq1, eq>1, num_only, den_only, single_num, single_den}"""
+    out = set()
+    if not (isinstance(enc, list) and enc[0] == "frac"):
+        return out
+    fl = lambda x: list(x[1:]) if isinstance(x, list) and x[0] == "prod" else [x]  # noqa: E731
+    n, d = fl(enc[1]), fl(enc[2])
+    if len(n) == 1:
+        out.add("single_num")
+    if len(d) == 1:
+        out.add("single_den")
+    import json as _j
+    key = lambda x: _j.dumps(x, sort_keys=True)  # noqa: E731
+    cn, cd = {}, {}
+    for x in n:
+        cn[key(x)] = cn.get(key(x), 0) + 1
+    for x in d:
+        cd[key(x)] = cd.get(key(x), 0) + 1
+    for k in set(cn) | set(cd):
+        a, b = cn.get(k, 0), cd.get(k, 0)
+        if a > b > 0:
+            out.add("num>den>0")
+        elif b > a > 0:
+            out.add("den>num>0")
+        elif a == b == 1:
+            out.add("eq1")
+        elif a == b and a > 1:
+            out.add("eq>1")
+        elif b == 0:
+            out.add("num_only")
+        else:
+            out.add("den_only")
+    return out
+
+
+def struct_ranges(rng: random.Random, e, n_names):
+    """range arguments for marginalize / conditional / normalize_marginalize chosen relative to the expression: free
+    event names, names bound by a Sum of the expression, intervention subscripts, fresh names; plain / starred /
+    counterfactual variables"""
+    ev = sorted(event_names(e))
+    bound = sorted(range_names(e))
+    subs = sorted({int(i[0]) for v in event_vars(e) for i in v[4]})
+    fresh = [n for n in range(n_names) if n not in all_names(e)]
+    mode = rng.choice(["free", "free", "all_free", "none", "bound", "subs", "fresh", "mixed"])
+    if mode == "free" and ev:
+        r = rng.sample(ev, rng.randint(1, len(ev)))
+    elif mode == "all_free":
+        r = list(ev)
+    elif mode == "none":
+        r = []
+    elif mode == "bound" and bound:
+        r = rng.sample(bound, rng.randint(1, len(bound))) + [n for n in ev if rng.random() < 0.3]
+    elif mode == "subs" and subs:
+        r = rng.sample(subs, 1) + [n for n in ev if rng.random() < 0.3]
+    elif mode == "fresh" and fresh:
+        r = rng.sample(fresh, 1) + [n for n in ev if rng.random() < 0.3]
+    else:
+        r = [n for n in range(n_names) if rng.random() < 0.4]
+    out = []
+    for n in sorted(set(r)):
+        k = rng.random()
+        if k < 0.8:
+            out.append(plain(n))
+        elif k < 0.9:
+            out.append(["v", n, rng.choice(["m", "p"]), "0", []])
+        else:
+            others = [m for m in range(n_names) if m != n]
+            out.append(cfv(n, [[rng.choice(others), "m"]]) if others else plain(n))
+    return out, mode
